@@ -73,7 +73,8 @@ type CtlCfg struct {
 	Pre       int  `json:"pre"`
 	Limit     int  `json:"limit"`
 	Replicas0 int  `json:"replicas0"`
-	Probe     bool `json:"probe"` // after settling, scale to the limit and settle again
+	Budget    int  `json:"budget"` // disruption budget (nodes) of the pool = Budget of StaticPool.tla; 0 = 1
+	Probe     bool `json:"probe"`  // after settling, scale to the limit and settle again
 }
 
 type CtlBehaviour struct {
@@ -813,13 +814,13 @@ func runCtl(b CtlBehaviour, tw *trace.Writer) error {
 	w.Prov.Types = world.DefaultCatalog()
 	s := &sim{w: w, ctx: world.Ctx(), cfg: b.Cfg, procs: map[string]*procState{}, auto: map[string]bool{}}
 	curSim = s
-	tw.Begin(trace.M{"level": "ctrl", "pool": ctlPool, "limit": b.Cfg.Limit, "replicas0": b.Cfg.Replicas0, "pre": b.Cfg.Pre, "tag": b.Tag})
+	tw.Begin(trace.M{"level": "ctrl", "pool": ctlPool, "limit": b.Cfg.Limit, "replicas0": b.Cfg.Replicas0, "pre": b.Cfg.Pre, "budget": max(1, b.Cfg.Budget), "tag": b.Tag})
 	w.Sink = s.sink(tw)
 	w.EnvCreate(world.NodeClass())
 	np := world.NodePool(ctlPool)
 	np.Spec.Replicas = lo.ToPtr(int64(b.Cfg.Replicas0))
 	np.Spec.Limits = v1.Limits{resources.Node: *resource.NewQuantity(int64(b.Cfg.Limit), resource.DecimalSI)}
-	np.Spec.Disruption.Budgets = []v1.Budget{{Nodes: "1"}} // Budget = 1 in StaticPool.tla
+	np.Spec.Disruption.Budgets = []v1.Budget{{Nodes: fmt.Sprint(max(1, b.Cfg.Budget))}} // Budget of StaticPool.tla
 	w.EnvCreate(np)
 	w.EnvMutate(np, "PoolReady", func() {
 		np.StatusConditions().SetTrue(v1.ConditionTypeValidationSucceeded)
